@@ -615,3 +615,7 @@ mutant('C20', 'euler advances the caller array in place', EU, "    return coord 
 benign('C20', 'intermediate path built with keyword arguments', ISM, "        intpath = ISMPath(icoord, self.energyfxn, self.gradientfxn,\n                          self.gradientkwargs)", "        intpath = ISMPath(icoord, self.energyfxn, gradientfxn=self.gradientfxn,\n                          gradientkwargs=self.gradientkwargs)")
 mutant('C20', 'intermediate path drops the gradient settings', ISM, "        intpath = ISMPath(icoord, self.energyfxn, self.gradientfxn,\n                          self.gradientkwargs)", "        intpath = ISMPath(icoord, self.energyfxn)", 'STRING-STEP')
 mutant('C02', 'wrapper caches the cell vectors per box object', DM, "    bvects = box.vects\n", "    global _lastbox, _lastv\n    try:\n        same = box is _lastbox\n    except NameError:\n        same = False\n    if not same:\n        _lastbox = box\n        _lastv = box.vects\n    bvects = _lastv\n", 'WRAPPER')
+benign('C03', 'growth test written with max()', NL, "if neighbors[uindex, 0] > maxneighbors or neighbors[vindex, 0] > maxneighbors:", "if max(neighbors[uindex, 0], neighbors[vindex, 0]) > maxneighbors:")
+benign('C03', 'coordination counts incremented in the other order', NL, "                            neighbors[uindex, 0] += 1\n                            neighbors[vindex, 0] += 1", "                            neighbors[vindex, 0] += 1\n                            neighbors[uindex, 0] += 1")
+benign('C03', 'neighbour growth copies only the occupied part of each row', NL, "                                    for k in range(maxneighbors + 1):\n                                        newneighbors[j, k] = neighbors[j, k]", "                                    for k in range(min(neighbors[j, 0], maxneighbors) + 1):\n                                        newneighbors[j, k] = neighbors[j, k]")
+mutant('C03', 'second row insertion point never searched', NL, "                                if neighbors[vindex, j] > uindex:\n                                    vj = j\n                                    break", "                                if neighbors[vindex, j] > uindex:\n                                    vj = j", 'INSERTION')
